@@ -385,6 +385,11 @@ def base_axioms() -> List[z3.BoolRef]:
                         z3.Implies(z3.And(winok(E_, eo, kk, v_, vo), eo <= ix, ix < eo + kk),
                                    conforms(lat(E_, ix), lat(v_, vo + (ix - eo)))),
                         patterns=[z3.MultiPattern(winok(E_, eo, kk, v_, vo), lat(E_, ix))]))
+    # (the same elimination, triggered from the value side)
+    ax.append(z3.ForAll([E_, eo, kk, v_, vo, ix],
+                        z3.Implies(z3.And(winok(E_, eo, kk, v_, vo), vo <= ix, ix < vo + kk),
+                                   conforms(lat(E_, eo + (ix - vo)), lat(v_, ix))),
+                        patterns=[z3.MultiPattern(winok(E_, eo, kk, v_, vo), lat(v_, ix))]))
     ax.append(z3.ForAll([E_, eo, kk, v_, vo],
                         z3.Implies(z3.Not(winok(E_, eo, kk, v_, vo)),
                                    z3.And(eo <= ww, ww < eo + kk,
